@@ -239,8 +239,8 @@ func runScheduled(c Case, o rec, opts runOpts) (pbt.Verdict, *sched) {
 		}
 	}
 
+	rg := acquireRig()
 	before := goroutineSet()
-	rg := newRig(c.Layer, c.OpType)
 	s := &sched{wake: make(chan struct{}, 1), byGID: map[int64]*pstate{}, rig: rg, c: &c, loads: &loadLog{},
 		steer17: opts.steer17, steer18: opts.steer18, watchdog: opts.watchdog}
 	for i, sp := range c.Parts {
@@ -254,9 +254,7 @@ func runScheduled(c Case, o rec, opts runOpts) (pbt.Verdict, *sched) {
 		p.w = &who{pid: i, script: sp.Script, hardCancel: c.HardCancel, p: p, s: s, loads: s.loads}
 		p.wr = &pwriter{p: p, s: s}
 		s.parts = append(s.parts, p)
-		rg.plan(k.Op, sp.Alt)
 	}
-	rg.plan(s.parts[0].key.Op, false)
 	current.Store(s)
 	defer current.Store(nil)
 
@@ -302,7 +300,7 @@ func runScheduled(c Case, o rec, opts runOpts) (pbt.Verdict, *sched) {
 			}
 		}
 		s.drain()
-		rg.stop()
+		discardRig(rg)
 		if len(wedged) > 0 {
 			return pbt.Bad("participant wedged (same blocking call in two samples %v apart):\n%s\n%s", opts.watchdog, strings.Join(wedged, "\n"), history()), s
 		}
@@ -328,13 +326,14 @@ func runScheduled(c Case, o rec, opts runOpts) (pbt.Verdict, *sched) {
 		// no harness action is left and these sit in a follower wait: nothing can wake them
 		gs := allGoroutines()
 		for _, p := range waiting {
+			p.wedged = true
 			add("", "p%d never returns: blocked forever in %s (its leader is gone and nothing is left to run)", p.id, strings.TrimSpace(gs[p.gid].top))
 		}
 		s.drain()
 	}
 	if s.poisonFailed != "" {
 		s.drain()
-		rg.stop()
+		discardRig(rg)
 		return pbt.Bad("harness: %s\n%s", s.poisonFailed, history()), s
 	}
 
@@ -403,12 +402,11 @@ func runScheduled(c Case, o rec, opts runOpts) (pbt.Verdict, *sched) {
 	}
 
 	// ---- goroutines -------------------------------------------------------------------------------
-	rg.stop()
 	if len(waiting) == 0 {
 		desc, stable := leaked(before, 2*time.Second)
 		if len(desc) > 0 {
 			if stable {
-				add("", "goroutines created by the scenario are still alive and blocked after every participant returned and the resolver was shut down:\n  %s", strings.Join(desc, "\n  "))
+				add("", "goroutines created by the scenario are still alive and blocked after every participant returned:\n  %s", strings.Join(desc, "\n  "))
 			} else {
 				o.label("goroutine-delta-inconclusive")
 			}
@@ -418,6 +416,7 @@ func runScheduled(c Case, o rec, opts runOpts) (pbt.Verdict, *sched) {
 	if len(probs) == 0 {
 		return pbt.OK, s
 	}
+	discardRig(rg)
 	sort.SliceStable(probs, func(i, j int) bool { return probs[i].finding == "" && probs[j].finding != "" })
 	var msgs []string
 	for _, p := range probs {
@@ -497,8 +496,8 @@ func oracle(c *Case, parts []*pstate, loads, prefetches []loadRec, o rec) []prob
 	}
 
 	for _, p := range parts {
-		if !p.finished {
-			continue
+		if !p.finished || p.wedged {
+			continue // reported as wedged; what it returns after the clean-up cancellation says nothing
 		}
 		if p.out.Panic != "" {
 			f := ""
